@@ -10,6 +10,7 @@ from common import Case, text_tokens
 
 SIM_HOSTS = 6
 _CAN443 = {}
+_CAN6 = {}
 _case_counter = itertools.count(1)
 
 
@@ -67,6 +68,19 @@ class World:
 
     def host(self, k):
         return "127.0.0.%d:%d" % (k + 1, self.base + k)
+
+    def host6(self):
+        """an IPv6-literal host, "[::1]:port" (port base + 10), or None when the IPv6 loopback cannot be bound here"""
+        if self.base not in _CAN6:
+            s = socket.socket(socket.AF_INET6)
+            try:
+                s.bind(("::1", self.base + 10))
+                _CAN6[self.base] = True
+            except OSError:
+                _CAN6[self.base] = False
+            finally:
+                s.close()
+        return "[::1]:%d" % (self.base + 10) if _CAN6[self.base] else None
 
     def host443(self):
         """the host reached on the default port (no port in its URLs), or None when port 443 cannot be bound here"""
